@@ -408,6 +408,7 @@ def run_(ck):
         cases += g.untyped_pair_cases()
         cases += g.string_cases()
         cases += g.intlit_cases()
+        cases += g.pytable_cases()
         cases += g.rowshare_cases(3000 if ck.thorough else 500, depth=6 if ck.thorough else 4)
         rc_ = g.random_cases(6000 if ck.thorough else 600, depth=6 if ck.thorough else 4)
         for i, c in enumerate(rc_):
@@ -607,6 +608,51 @@ def run_(ck):
                                      % ([L.dbl_of(b) for b in c.vectors[j]], L.dbl_of(int(v[2:], 16)),
                                         L.dbl_of(int(got[j], 16)))))
                     break
+    # the documented differences between the Python templates and the interpreter: observed, not judged
+    table_cases = [(k, c, impl[k][0]["py"].decode("latin-1")) for k, c in enumerate(cases)
+                   if c.expect and impl[k] and impl[k][0]]
+    pytable = []
+    if table_cases:
+        pout = python_exec_batch(table_cases)
+        for k, c, text in table_cases:
+            vals, got = impl[k][1], pout.get(k, [])
+            if not vals or not got or not vals[0].startswith("d:") or len(got[0]) != 16:
+                rel = "not-evaluated"
+            else:
+                rel = "agrees" if close_enough(int(vals[0][2:], 16), int(got[0], 16)) else "differs"
+            row = {"template": c.expect[0], "python_text": text, "input": [L.dbl_of(b) for b in c.vectors[0]],
+                   "interpreter": L.dbl_of(int(vals[0][2:], 16)) if vals and vals[0].startswith("d:") else None,
+                   "python": L.dbl_of(int(got[0], 16)) if got and len(got[0]) == 16 else None,
+                   "documented": c.expect[1], "observed": rel, "why": c.expect[2]}
+            pytable.append(row)
+            if rel != c.expect[1]:
+                ck.notes.append("Python template of %s: documented as '%s' on %s, observed '%s'"
+                                % (c.expect[0], c.expect[1], row["input"], rel))
+    ck.coverage["python_templates_vs_interpreter"] = pytable
+
+    # MQL cannot be executed here: beyond the oracle parser (C grammar), the MQL text must be the C text
+    # modulo the function-name table regenerated from the templates (for the classes whose two templates
+    # have the same shape)
+    mql_table, mql_different = L.mql_name_table(catalog)
+    mql_checked = mql_skipped = 0
+    for k, c in enumerate(cases):
+        if not (impl[k] and impl[k][0]) or not c.wellformed or c.tag == "user" or c.known_key:
+            continue
+        if set(c.idents()) & set(mql_different):
+            mql_skipped += 1
+            continue
+        try:
+            a = L.rename_ids(L.parse_text(impl[k][0]["c"].decode("latin-1"), "c"), mql_table)
+            b = L.parse_text(impl[k][0]["mql"].decode("latin-1"), "mql")
+        except L.ParseError:
+            continue        # already reported by oracle (a)
+        mql_checked += 1
+        if L.norm_ast(a, "py") != L.norm_ast(b, "py"):
+            failures.append(("mql", "differs-from-the-c-text", k,
+                             "modulo the function names %s the MQL text reads as %s, the C text as %s"
+                             % (sorted(mql_table.items())[:6], L.show_ast(b)[:200], L.show_ast(a)[:200])))
+    ck.coverage["mql_vs_c"] = {"name_table": mql_table, "templates_of_another_shape": mql_different,
+                               "texts_compared": mql_checked, "skipped": mql_skipped}
     ck.coverage["executed_python_evaluations"] = py_executed
     ck.coverage["python_raised_where_c_is_inf_or_nan"] = py_raised
 
